@@ -197,6 +197,7 @@ static struct G {
   int cpuinfo_len;
   int ncpus;
   uint64_t clock_ns;
+  uint64_t clock_step;
   uint32_t rand_state;
   char tag[96];
 } g;
@@ -206,7 +207,7 @@ static Shadow* g_shadow;  // SHADOW_SLOTS
 static __thread Thr* tls_me;
 
 #define STALL_LIMIT 40
-#define SLICE 4000
+#define SLICE 3000
 
 // ---------------------------------------------------------------------------
 // real libc entry points
@@ -568,8 +569,22 @@ static int decide(Thr* me) {
   // fairness backstop: a thread that ran SLICE visible operations in a row
   // while others could run is treated as yielding (busy-wait loops that
   // neither pause nor look periodic would otherwise starve everybody)
-  if (g.nops - g.slice_start > SLICE && (mask & ~(1u << me->tid)))
-    me->yielding = true;
+  if (g.nops - g.slice_start > SLICE) {
+    // ... and threads parked by the wait rule get another look: a wrongly
+    // detected wait (a finite polling sequence that merely LOOKED periodic)
+    // must not starve its thread while somebody else runs forever
+    bool woke = false;
+    for (int i = 0; i < g.nthr; ++i)
+      if (g.thr[i].ydis) {
+        loop_reset(&g.thr[i]);
+        mask |= 1u << i;
+        woke = true;
+      }
+    if (mask & ~(1u << me->tid))
+      me->yielding = true;
+    if (woke || me->yielding)
+      g.slice_start = g.nops;
+  }
   if (((mask >> me->tid) & 1) && !me->yielding) {
     base = me->tid;
   } else {
@@ -1508,7 +1523,7 @@ extern "C" int clock_gettime(clockid_t id, struct timespec* ts) {
     resolve_real();
     return real_clock_gettime(id, ts);
   }
-  g.clock_ns += 1000;
+  g.clock_ns += g.clock_step ? g.clock_step : 1000;
   ts->tv_sec  = 1000000 + g.clock_ns / 1000000000ULL;
   ts->tv_nsec = g.clock_ns % 1000000000ULL;
   return 0;
@@ -1522,7 +1537,7 @@ extern "C" int gettimeofday(struct timeval* tv, void*) {
     tv->tv_usec = ts.tv_nsec / 1000;
     return 0;
   }
-  g.clock_ns += 1000;
+  g.clock_ns += g.clock_step ? g.clock_step : 1000;
   tv->tv_sec  = 1000000 + g.clock_ns / 1000000000ULL;
   tv->tv_usec = (g.clock_ns % 1000000000ULL) / 1000;
   return 0;
@@ -1546,6 +1561,7 @@ extern "C" void vf_set_topology(const int* sockets, int ns) {
 }
 
 extern "C" int vf_active(void) { return tls_me != NULL; }
+extern "C" void vf_set_clock_step(uint64_t ns) { g.clock_step = ns; }
 extern "C" void vf_tag(const char* t) { snprintf(g.tag, sizeof g.tag, "%s", t); }
 extern "C" int vf_tid(void) { return tls_me ? tls_me->tid : -1; }
 extern "C" uint64_t vf_now(void) { return g.nops; }
